@@ -2720,3 +2720,13 @@ variant('b-request-payload-parser-forgets-the-metadata', ['C02'], 'rsocket/frame
         "    def _parse_payload(self, buffer: bytes, offset: int):\n        offset += self.parse_metadata(buffer, offset)\n",
         "    def _parse_payload(self, buffer: bytes, offset: int):\n",
         ('C02.a', 'layout'))
+
+# C04.n the parser's buffer is never emptied
+variant('b-parser-clears-its-buffer-when-the-loop-runs-out', ['C04'], 'rsocket/frame_parser.py',
+        "            self._buffer = self._buffer[length + frame_length_byte_count:]\n            total -= length + frame_length_byte_count\n",
+        "            self._buffer = self._buffer[length + frame_length_byte_count:]\n            total -= length + frame_length_byte_count\n        else:\n            self._buffer.clear()\n",
+        ('C04.n', 'empties the buffer'))
+variant('t-parser-clears-its-buffer-when-everything-was-consumed', ['C04', 'C12'], 'rsocket/frame_parser.py',
+        "            self._buffer = self._buffer[length + frame_length_byte_count:]\n            total -= length + frame_length_byte_count\n",
+        "            self._buffer = self._buffer[length + frame_length_byte_count:]\n            total -= length + frame_length_byte_count\n            if total == 0:\n                self._buffer.clear()\n",
+        kind='twin')
